@@ -26,6 +26,6 @@ def run(pid, mode, tier, seed, replay, prop_module, corr, extra_trusted=(), assu
         corr_name=corr,
         trusted=MODELLED + list(extra_trusted),
         assume=list(assume),
-        coqchk_modules=coqchk or ["GR." + prop_module],
+        coqchk_modules=coqchk or ["GR." + m for m in ([prop_module] if isinstance(prop_module, str) else prop_module)],
         driver_timeout=timeout,
     )
